@@ -221,7 +221,13 @@ func (o *orch) spawnWorker(e *props.Engine, w, attempt int, start, stride, limit
 		kind = "stack-overflow"
 	}
 	o.mu.Lock()
-	o.lostRuns += int64((runIdx-start)/stride) + 1 // the dead worker's completed runs are lost with its summary
+	if ps := readSummary(out + ".partial"); ps != nil {
+		// keep what the dead worker had counted and found up to its last checkpoint
+		o.sums[e.Name] = append(o.sums[e.Name], ps)
+		o.lostRuns += int64((runIdx-start)/stride) + 1 - ps.Runs
+	} else {
+		o.lostRuns += int64((runIdx-start)/stride) + 1 // the dead worker's completed runs are lost with its summary
+	}
 	o.mu.Unlock()
 	o.confirmDeath(e, runIdx, kind, tail)
 	return runIdx + stride, false
